@@ -16,7 +16,7 @@ RULE = ('valence-valid molecules: corpus sample, curated feature molecules and m
         'standardize_charges, explicify/implicify_hydrogens, enumerate_tautomers}; relations checked per execution: heavy-atom '
         'multiset, net charge and total H conserved (neutralize: delta charge = delta H), no valence error, no exception, '
         'idempotence (also with every cached derived view read before / between the calls), explicify/implicify inverse, equivariance '
-        'under renumbering, documented pair reached (also with the group two and three times on one carbon); every tautomer has a Kekule form whose text, read again, has the same hydrogens and no atom without valence state; rule-fired '
+        'under renumbering, documented pair reached (also with the group two and three times on one carbon); every tautomer has a Kekule form whose text, read again, has the same hydrogens and no atom without valence state (incl. 25 formyl / acyl inputs whose alpha carbon ends the keto-enol path); rule-fired '
         'recorder from standardize(logging=True); non-trivial = molecule on which the operation changed something, distinct '
         'by (operation, canonical input)')
 ASSUMPTIONS = ['CachedMethods compatibility shim', 'numbering independence is judged with fix_tautomers=False except on the '
